@@ -5,7 +5,7 @@ CONSTANTS
   FieldSeps = {":", "|"}
   ArraySizes = {0}
   ActiveFns = {"SetFieldSeparator"}
-  ActiveOps = {"query"}
-  MaxHist = 5
+  ActiveOps = {"query", "upd"}
+  MaxHist = 4
 INVARIANTS Functional OnlyRelevant Emit
 CHECK_DEADLOCK FALSE
